@@ -290,8 +290,12 @@ def run(ctx):
         for a in obs:
             ctx.hist('action:' + {1: 'unicast', 2: 'multicast-now', 3: 'queue', 4: 'delay-queue'}[a[0]])
     fails = []
-    for _ in range(250 if quick else 4000):
-        sc = gen_scenario(rng)
+    # first a fixed grid of the rarest shape: a two-question query with one QU and one QM question (either order) arriving twice inside the
+    # listener's duplicate window, recently and long after the announcements
+    grid = [dict(qkind='ptr+srv', qu=True, mixed=mx, port=5353, probe=False, age=age, ident=0, two_sockets=False, repeat=rp)
+            for mx in ('qu-qm', 'qm-qu') for rp in (10, 999) for age in (5000, 2000000)]
+    for k in range(len(grid) + (250 if quick else 4000)):
+        sc = grid[k] if k < len(grid) else gen_scenario(rng)
         out = run_scenario(sc)
         why = oracle_scenario(sc, out)
         if why:
